@@ -273,38 +273,179 @@ theorem search_nil (h : Nat) : search [] h = 0 := by
   unfold search searchLoop
   simp
 
+/-! ### the give-back loop of RemoveNode -/
+
+theorem find_restoreStep (m : μ) (c : List (Nat × μ)) (p q : Nat) :
+    find (restoreStep m c p) q = if q = p ∧ find c q = none then some m else find c q := by
+  unfold restoreStep
+  by_cases hq : q = p
+  · subst hq
+    cases hf : find c q with
+    | none => simp [find_insert]
+    | some x => simp [hf]
+  · cases hf : find c p with
+    | none => simp [find_insert, hq]
+    | some x => simp [hq]
+
+theorem find_foldl_restoreStep (m : μ) (ps : List Nat) (c : List (Nat × μ)) (q : Nat) :
+    find (ps.foldl (restoreStep m) c) q = if q ∈ ps ∧ find c q = none then some m else find c q := by
+  induction ps generalizing c with
+  | nil => simp
+  | cons p ps ih =>
+    simp only [List.foldl_cons, ih, find_restoreStep, List.mem_cons]
+    by_cases hq : q = p
+    · subst hq
+      cases hf : find c q with
+      | none => simp
+      | some x => simp
+    · simp [hq]
+
+theorem restore_cons (pts : μ → List Nat) (m : μ) (ms : List μ) (c : List (Nat × μ)) :
+    restore pts (m :: ms) c = restore pts ms ((pts m).foldl (restoreStep m) c) := rfl
+
+/-- a point that is on the ring keeps its owner -/
+theorem restore_keep (pts : μ → List Nat) (ms : List μ) (c : List (Nat × μ)) (q : Nat) (x : μ)
+    (h : find c q = some x) : find (restore pts ms c) q = some x := by
+  induction ms generalizing c with
+  | nil => exact h
+  | cons m ms ih =>
+    rw [restore_cons]
+    apply ih
+    rw [find_foldl_restoreStep]
+    simp [h]
+
+/-- a point that appears is a replica point of one of the visited members, and goes to that member -/
+theorem restore_new (pts : μ → List Nat) (ms : List μ) (c : List (Nat × μ)) (q : Nat) (x : μ)
+    (h0 : find c q = none) (h : find (restore pts ms c) q = some x) : x ∈ ms ∧ q ∈ pts x := by
+  induction ms generalizing c with
+  | nil => rw [show restore pts [] c = c from rfl, h0] at h; cases h
+  | cons m ms ih =>
+    rw [restore_cons] at h
+    by_cases hq : q ∈ pts m
+    · have h1 : find ((pts m).foldl (restoreStep m) c) q = some m := by
+        rw [find_foldl_restoreStep]; simp [hq, h0]
+      rw [restore_keep pts ms _ q m h1] at h
+      cases h
+      exact ⟨List.mem_cons_self, hq⟩
+    · have h1 : find ((pts m).foldl (restoreStep m) c) q = none := by
+        rw [find_foldl_restoreStep]; simp [hq, h0]
+      obtain ⟨hx, hp⟩ := ih _ h1 h
+      exact ⟨List.mem_cons_of_mem _ hx, hp⟩
+
+/-- afterwards every replica point of every visited member is on the ring -/
+theorem restore_covers (pts : μ → List Nat) (ms : List μ) (c : List (Nat × μ)) (m : μ) (q : Nat)
+    (hm : m ∈ ms) (hq : q ∈ pts m) : ∃ x, find (restore pts ms c) q = some x := by
+  induction ms generalizing c with
+  | nil => cases hm
+  | cons a ms ih =>
+    rw [restore_cons]
+    rcases List.mem_cons.mp hm with rfl | hm
+    · cases hf : find c q with
+      | none =>
+        exact ⟨m, restore_keep pts ms _ q m (by rw [find_foldl_restoreStep]; simp [hq, hf])⟩
+      | some x =>
+        exact ⟨x, restore_keep pts ms _ q x (by rw [find_foldl_restoreStep]; simp [hf])⟩
+    · exact ih _ hm
+
 /-! ### well-formed rings -/
+
+/-- the order in which RemoveNode visits the remaining members enumerates exactly the member set -/
+def OrdOK (K : Cfg μ) : Prop := ∀ l m, m ∈ K.ord l ↔ m ∈ l
 
 /-- what every reachable ring satisfies: the sorted list is the sorted key set of the map, every point is
   owned by a current member, and it is one of the replica points of its owner -/
-structure WF (pts : μ → List Nat) (r : Ring μ) : Prop where
+structure WF (K : Cfg μ) (r : Ring μ) : Prop where
   sorted_eq : r.sorted = updateSorted r.circle
   owner_mem : ∀ p m, find r.circle p = some m → m ∈ r.nodes
-  owner_pts : ∀ p m, find r.circle p = some m → p ∈ pts m
+  owner_pts : ∀ p m, find r.circle p = some m → p ∈ K.pts m
 
-theorem wf_empty (pts : μ → List Nat) : WF pts (Ring.empty : Ring μ) :=
+/-- with the give-back loop: every replica point of every member is on the ring (owned by someone) -/
+def Covered (K : Cfg μ) (r : Ring μ) : Prop := ∀ m ∈ r.nodes, ∀ p ∈ K.pts m, p ∈ keys r.circle
+
+theorem wf_empty (K : Cfg μ) : WF K (Ring.empty : Ring μ) :=
   ⟨rfl, fun p m h => by simp [Ring.empty, find] at h, fun p m h => by simp [Ring.empty, find] at h⟩
 
 theorem find_addNode (pts : μ → List Nat) (r : Ring μ) (m : μ) (q : Nat) :
     find (addNode pts r m).circle q = if q ∈ pts m then some m else find r.circle q :=
   find_foldl_insert m (pts m) r.circle q
 
-theorem find_removeNode (pts : μ → List Nat) (r : Ring μ) (m : μ) (q : Nat) :
-    find (removeNode true pts r m).circle q =
-      if q ∈ pts m ∧ find r.circle q = some m then none else find r.circle q :=
-  find_foldl_remove m (pts m) r.circle q
+/-- the map after the delete loop of `RemoveNode`, before points are given back -/
+def afterDelete (K : Cfg μ) (r : Ring μ) (m : μ) : List (Nat × μ) :=
+  (K.pts m).foldl (removeStep K.guarded m) r.circle
 
-theorem find_removeNode_unguarded (pts : μ → List Nat) (r : Ring μ) (m : μ) (q : Nat) :
-    find (removeNode false pts r m).circle q = if q ∈ pts m then none else find r.circle q :=
-  find_foldl_remove_unguarded m (pts m) r.circle q
+theorem removeNode_circle (K : Cfg μ) (r : Ring μ) (m : μ) :
+    (removeNode K r m).circle =
+      if K.restores then restore K.pts (K.ord (r.nodes.filter (· ≠ m))) (afterDelete K r m) else afterDelete K r m := rfl
 
-theorem wf_addNode (pts : μ → List Nat) (r : Ring μ) (m : μ) (hr : WF pts r) : WF pts (addNode pts r m) := by
-  have hn : (addNode pts r m).nodes = if m ∈ r.nodes then r.nodes else m :: r.nodes := rfl
+theorem removeNode_nodes (K : Cfg μ) (r : Ring μ) (m : μ) :
+    (removeNode K r m).nodes = r.nodes.filter (· ≠ m) := rfl
+
+/-- a binding that survives the delete loop was there before and is not the removed member's -/
+theorem afterDelete_old {K : Cfg μ} {r : Ring μ} (hr : WF K r) (m : μ) (p : Nat) (x : μ)
+    (hx : find (afterDelete K r m) p = some x) : find r.circle p = some x ∧ x ≠ m := by
+  unfold afterDelete at hx
+  cases hg : K.guarded with
+  | true =>
+    rw [hg, find_foldl_remove] at hx
+    by_cases hp : p ∈ K.pts m ∧ find r.circle p = some m
+    · simp [hp] at hx
+    · simp only [hp, if_false] at hx
+      refine ⟨hx, ?_⟩
+      intro h
+      subst h
+      exact hp ⟨hr.owner_pts p x hx, hx⟩
+  | false =>
+    rw [hg, find_foldl_remove_unguarded] at hx
+    by_cases hp : p ∈ K.pts m
+    · simp [hp] at hx
+    · simp only [hp, if_false] at hx
+      refine ⟨hx, ?_⟩
+      intro h
+      subst h
+      exact hp (hr.owner_pts p x hx)
+
+/-- the guarded delete loop keeps every binding of another member -/
+theorem afterDelete_keep {K : Cfg μ} (hg : K.guarded = true) (r : Ring μ) (m : μ) (p : Nat) (x : μ)
+    (hx : find r.circle p = some x) (hne : x ≠ m) : find (afterDelete K r m) p = some x := by
+  unfold afterDelete
+  rw [hg, find_foldl_remove]
+  have : ¬ (p ∈ K.pts m ∧ find r.circle p = some m) := by
+    rintro ⟨_, h2⟩
+    rw [hx] at h2
+    exact hne (Option.some.inj h2)
+  simp only [this, if_false]; exact hx
+
+/-- where a binding of the ring after `RemoveNode` comes from: it was there before (and is not the removed
+  member's), or it was given back to a remaining member -/
+theorem removeNode_origin {K : Cfg μ} (hord : OrdOK K) {r : Ring μ} (hr : WF K r) (m : μ) (p : Nat) (x : μ)
+    (hx : find (removeNode K r m).circle p = some x) :
+    (find r.circle p = some x ∧ x ≠ m) ∨
+    (find (afterDelete K r m) p = none ∧ x ∈ r.nodes.filter (· ≠ m) ∧ p ∈ K.pts x) := by
+  rw [removeNode_circle] at hx
+  cases hrs : K.restores with
+  | false =>
+    rw [hrs] at hx
+    exact Or.inl (afterDelete_old hr m p x hx)
+  | true =>
+    rw [hrs] at hx
+    simp only [if_true] at hx
+    cases hd : find (afterDelete K r m) p with
+    | some y =>
+      rw [restore_keep _ _ _ p y hd] at hx
+      have hxy : y = x := Option.some.inj hx
+      subst hxy
+      exact Or.inl (afterDelete_old hr m p y hd)
+    | none =>
+      obtain ⟨h1, h2⟩ := restore_new _ _ _ p x hd hx
+      exact Or.inr ⟨rfl, (hord _ x).mp h1, h2⟩
+
+theorem wf_addNode (K : Cfg μ) (r : Ring μ) (m : μ) (hr : WF K r) : WF K (addNode K.pts r m) := by
+  have hn : (addNode K.pts r m).nodes = if m ∈ r.nodes then r.nodes else m :: r.nodes := rfl
   refine ⟨rfl, ?_, ?_⟩
   · intro p x hx
     rw [find_addNode] at hx
     rw [hn]
-    by_cases hp : p ∈ pts m
+    by_cases hp : p ∈ K.pts m
     · simp only [hp, if_true, Option.some.injEq] at hx
       subst hx
       by_cases hm : m ∈ r.nodes <;> simp [hm]
@@ -313,48 +454,28 @@ theorem wf_addNode (pts : μ → List Nat) (r : Ring μ) (m : μ) (hr : WF pts r
       by_cases hm : m ∈ r.nodes <;> simp [hm, this]
   · intro p x hx
     rw [find_addNode] at hx
-    by_cases hp : p ∈ pts m
+    by_cases hp : p ∈ K.pts m
     · simp only [hp, if_true, Option.some.injEq] at hx
       subst hx; exact hp
     · simp only [hp, if_false] at hx
       exact hr.owner_pts p x hx
 
-theorem wf_removeNode (g : Bool) (pts : μ → List Nat) (r : Ring μ) (m : μ) (hr : WF pts r) :
-    WF pts (removeNode g pts r m) := by
-  have hn : (removeNode g pts r m).nodes = r.nodes.filter (· ≠ m) := rfl
-  -- every binding that survives was there before
-  have hold : ∀ p x, find (removeNode g pts r m).circle p = some x → find r.circle p = some x ∧ x ≠ m := by
-    intro p x hx
-    cases g with
-    | true =>
-      rw [find_removeNode] at hx
-      by_cases hp : p ∈ pts m ∧ find r.circle p = some m
-      · simp [hp] at hx
-      · simp only [hp, if_false] at hx
-        refine ⟨hx, ?_⟩
-        intro h
-        subst h
-        exact hp ⟨hr.owner_pts p x hx, hx⟩
-    | false =>
-      rw [find_removeNode_unguarded] at hx
-      by_cases hp : p ∈ pts m
-      · simp [hp] at hx
-      · simp only [hp, if_false] at hx
-        refine ⟨hx, ?_⟩
-        intro h
-        subst h
-        exact hp (hr.owner_pts p x hx)
+theorem wf_removeNode (K : Cfg μ) (hord : OrdOK K) (r : Ring μ) (m : μ) (hr : WF K r) :
+    WF K (removeNode K r m) := by
   refine ⟨rfl, ?_, ?_⟩
   · intro p x hx
-    obtain ⟨h1, h2⟩ := hold p x hx
-    rw [hn]
-    simp [hr.owner_mem p x h1, h2]
+    rw [removeNode_nodes]
+    rcases removeNode_origin hord hr m p x hx with ⟨h1, h2⟩ | ⟨_, h2, _⟩
+    · simp [hr.owner_mem p x h1, h2]
+    · exact h2
   · intro p x hx
-    exact hr.owner_pts p x (hold p x hx).1
+    rcases removeNode_origin hord hr m p x hx with ⟨h1, _⟩ | ⟨_, _, h3⟩
+    · exact hr.owner_pts p x h1
+    · exact h3
 
-theorem wf_run (g : Bool) (pts : μ → List Nat) (ops : List (Op μ)) : WF pts (run g pts ops) := by
+theorem wf_run (K : Cfg μ) (hord : OrdOK K) (ops : List (Op μ)) : WF K (run K ops) := by
   unfold run
-  suffices h : ∀ r : Ring μ, WF pts r → WF pts (ops.foldl (step g pts) r) from h _ (wf_empty pts)
+  suffices h : ∀ r : Ring μ, WF K r → WF K (ops.foldl (step K) r) from h _ (wf_empty K)
   induction ops with
   | nil => intro r hr; exact hr
   | cons o ops ih =>
@@ -362,17 +483,76 @@ theorem wf_run (g : Bool) (pts : μ → List Nat) (ops : List (Op μ)) : WF pts 
     simp only [List.foldl_cons]
     apply ih
     cases o with
-    | add m => exact wf_addNode pts r m hr
-    | remove m => exact wf_removeNode g pts r m hr
+    | add m => exact wf_addNode K r m hr
+    | remove m => exact wf_removeNode K hord r m hr
+
+theorem covered_addNode (K : Cfg μ) (r : Ring μ) (m : μ) (hc : Covered K r) : Covered K (addNode K.pts r m) := by
+  intro x hx p hp
+  apply (mem_keys_iff _ p).mpr
+  rw [find_addNode]
+  by_cases hpm : p ∈ K.pts m
+  · exact ⟨m, by simp [hpm]⟩
+  · simp only [hpm, if_false]
+    have hn : (addNode K.pts r m).nodes = if m ∈ r.nodes then r.nodes else m :: r.nodes := rfl
+    rw [hn] at hx
+    have hxr : x ∈ r.nodes := by
+      by_cases hm : m ∈ r.nodes
+      · simpa [hm] using hx
+      · simp only [hm, if_false, List.mem_cons] at hx
+        rcases hx with rfl | hx
+        · exact absurd hp hpm
+        · exact hx
+    exact (mem_keys_iff _ p).mp (hc x hxr p hp)
+
+theorem covered_removeNode (K : Cfg μ) (hrs : K.restores = true) (hord : OrdOK K) (r : Ring μ) (m : μ) :
+    Covered K (removeNode K r m) := by
+  intro x hx p hp
+  rw [removeNode_nodes] at hx
+  apply (mem_keys_iff _ p).mpr
+  rw [removeNode_circle, hrs]
+  simp only [if_true]
+  exact restore_covers K.pts _ _ x p ((hord _ x).mpr hx) hp
+
+theorem covered_run (K : Cfg μ) (hrs : K.restores = true) (hord : OrdOK K) (ops : List (Op μ)) :
+    Covered K (run K ops) := by
+  unfold run
+  suffices h : ∀ r : Ring μ, Covered K r → Covered K (ops.foldl (step K) r) from
+    h _ (by intro m hm; simp [Ring.empty] at hm)
+  induction ops with
+  | nil => intro r hr; exact hr
+  | cons o ops ih =>
+    intro r hr
+    simp only [List.foldl_cons]
+    apply ih
+    cases o with
+    | add m => exact covered_addNode K r m hr
+    | remove m => exact covered_removeNode K hrs hord r m
+
+/-- with guard and give-back loop: the points of the ring after `RemoveNode` were all on it before -/
+theorem keys_removeNode_sub {K : Cfg μ} (hord : OrdOK K) {r : Ring μ} (hr : WF K r) (hc : Covered K r) (m : μ)
+    (q : Nat) (hq : q ∈ keys (removeNode K r m).circle) : q ∈ keys r.circle := by
+  obtain ⟨x, hx⟩ := (mem_keys_iff _ q).mp hq
+  rcases removeNode_origin hord hr m q x hx with ⟨h1, _⟩ | ⟨_, h2, h3⟩
+  · exact (mem_keys_iff _ q).mpr ⟨x, h1⟩
+  · exact hc x (List.mem_filter.mp h2).1 q h3
+
+/-- with guard (and give-back loop or not): a binding of another member survives `RemoveNode` -/
+theorem removeNode_keep {K : Cfg μ} (hg : K.guarded = true) (r : Ring μ) (m : μ) (p : Nat) (x : μ)
+    (hx : find r.circle p = some x) (hne : x ≠ m) : find (removeNode K r m).circle p = some x := by
+  rw [removeNode_circle]
+  have := afterDelete_keep hg r m p x hx hne
+  cases K.restores with
+  | false => exact this
+  | true => exact restore_keep _ _ _ p x this
 
 /-! ### what `lookup` returns -/
 
-theorem mem_sorted_iff {pts : μ → List Nat} {r : Ring μ} (hr : WF pts r) (q : Nat) :
+theorem mem_sorted_iff {K : Cfg μ} {r : Ring μ} (hr : WF K r) (q : Nat) :
     q ∈ r.sorted ↔ q ∈ keys r.circle := by
   rw [hr.sorted_eq]; exact mem_sortPoints q _
 
 /-- a ring without points: `GetNodeBy` indexes an empty slice -/
-theorem lookup_empty {pts : μ → List Nat} {r : Ring μ} (hr : WF pts r) (hk : keys r.circle = []) (h : Nat) :
+theorem lookup_empty {K : Cfg μ} {r : Ring μ} (hr : WF K r) (hk : keys r.circle = []) (h : Nat) :
     lookup r h = .panic := by
   have hs : r.sorted = [] := by
     rw [hr.sorted_eq]; unfold updateSorted; rw [hk]; rfl
@@ -380,7 +560,7 @@ theorem lookup_empty {pts : μ → List Nat} {r : Ring μ} (hr : WF pts r) (hk :
   rw [hs, search_nil]; rfl
 
 /-- a ring with at least one point: `GetNodeBy` returns the owner of the cyclic successor of the hash -/
-theorem lookup_total {pts : μ → List Nat} {r : Ring μ} (hr : WF pts r) (hk : keys r.circle ≠ []) (h : Nat) :
+theorem lookup_total {K : Cfg μ} {r : Ring μ} (hr : WF K r) (hk : keys r.circle ≠ []) (h : Nat) :
     ∃ p m, IsSucc (keys r.circle) h p ∧ find r.circle p = some m ∧ lookup r h = .node m := by
   have hs : r.sorted.Pairwise (· ≤ ·) := by rw [hr.sorted_eq]; exact sorted_sortPoints _
   have hne : r.sorted ≠ [] := by
@@ -393,7 +573,7 @@ theorem lookup_total {pts : μ → List Nat} {r : Ring μ} (hr : WF pts r) (hk :
   unfold lookup
   rw [hp]; simp only [hm]
 
-theorem lookup_of_succ {pts : μ → List Nat} {r : Ring μ} (hr : WF pts r) {h p : Nat} {m : μ}
+theorem lookup_of_succ {K : Cfg μ} {r : Ring μ} (hr : WF K r) {h p : Nat} {m : μ}
     (hp : IsSucc (keys r.circle) h p) (hm : find r.circle p = some m) : lookup r h = .node m := by
   have hk : keys r.circle ≠ [] := List.ne_nil_of_mem hp.1
   obtain ⟨p', m', hp', hm', hl⟩ := lookup_total hr hk h
@@ -403,7 +583,7 @@ theorem lookup_of_succ {pts : μ → List Nat} {r : Ring μ} (hr : WF pts r) {h 
   cases hm'
   exact hl
 
-theorem succ_of_lookup {pts : μ → List Nat} {r : Ring μ} (hr : WF pts r) {h : Nat} {m : μ}
+theorem succ_of_lookup {K : Cfg μ} {r : Ring μ} (hr : WF K r) {h : Nat} {m : μ}
     (hl : lookup r h = .node m) : ∃ p, IsSucc (keys r.circle) h p ∧ find r.circle p = some m := by
   by_cases hk : keys r.circle = []
   · rw [lookup_empty hr hk] at hl; cases hl
@@ -416,7 +596,7 @@ theorem keys_eq_nil_iff (c : List (Nat × μ)) : keys c = [] ↔ c = [] := by
   unfold keys; simp
 
 /-- two well-formed rings whose maps agree point by point answer every lookup alike -/
-theorem lookup_congr {pts : μ → List Nat} {r r' : Ring μ} (hr : WF pts r) (hr' : WF pts r')
+theorem lookup_congr {K : Cfg μ} {r r' : Ring μ} (hr : WF K r) (hr' : WF K r')
     (hf : ∀ p, find r.circle p = find r'.circle p) (h : Nat) : lookup r h = lookup r' h := by
   have hk : ∀ q, q ∈ keys r.circle ↔ q ∈ keys r'.circle := by
     intro q; rw [mem_keys_iff, mem_keys_iff, hf q]
@@ -434,62 +614,61 @@ theorem lookup_congr {pts : μ → List Nat} {r r' : Ring μ} (hr : WF pts r) (h
 
 /-! ### side-conditions on the regenerated constants -/
 
-/-- what the proofs and the model need from the source: the ownership guard of `RemoveNode` (D16), FNV-1a
-  shape of `hashKey` on 32 bits, one replica format `%s<sep>%d` shared by AddNode and RemoveNode, at least
-  one replica, `<=` in the binary search -/
+/-- what the proofs and the model need from the source: the ownership guard of `RemoveNode` (D16) and its
+  give-back loop, FNV-1a shape of `hashKey` on 32 bits, one replica format `%s<sep>%d` shared by AddNode and
+  both loops of RemoveNode, at least one replica, `<=` in the binary search -/
 def Valid (P : Params) : Prop :=
-  P.guarded = true ∧ 0 < P.replicas ∧ P.hashBits = 32 ∧ P.fnvOrder = "xor-mul" ∧ P.searchCmp = "<=" ∧
-  P.fmtAdd = P.fmtRemove ∧ (parseFmt P.fmtAdd).isSome = true ∧ P.offset < 2 ^ 32 ∧ P.prime < 2 ^ 32
+  P.guarded = true ∧ P.restores = true ∧ 0 < P.replicas ∧ P.hashBits = 32 ∧ P.fnvOrder = "xor-mul" ∧
+  P.searchCmp = "<=" ∧ P.fmtAdd = P.fmtRemove ∧ P.fmtRestore = P.fmtAdd ∧ (parseFmt P.fmtAdd).isSome = true ∧
+  P.offset < 2 ^ 32 ∧ P.prime < 2 ^ 32
 
 instance (P : Params) : Decidable (Valid P) := by unfold Valid; infer_instance
 
-/-- the members' replica points never collide, and every member has at least one -/
-def NoCollision (pts : μ → List Nat) : Prop :=
-  (∀ a b, a ≠ b → ∀ p, p ∈ pts a → p ∉ pts b) ∧ ∀ a, pts a ≠ []
+/-! ### the concrete configuration -/
 
-/-- without collisions every current member owns all its replica points -/
-theorem owns_all_run (g : Bool) (pts : μ → List Nat) (hnc : NoCollision pts) (ops : List (Op μ)) :
-    ∀ m ∈ (run g pts ops).nodes, ∀ p ∈ pts m, find (run g pts ops).circle p = some m := by
-  unfold run
-  suffices h : ∀ r : Ring μ, (∀ m ∈ r.nodes, ∀ p ∈ pts m, find r.circle p = some m) →
-      ∀ m ∈ (ops.foldl (step g pts) r).nodes, ∀ p ∈ pts m, find (ops.foldl (step g pts) r).circle p = some m from
-    h _ (by intro m hm; simp [Ring.empty] at hm)
-  induction ops with
-  | nil => intro r hr; exact hr
-  | cons o ops ih =>
-    intro r hr
-    simp only [List.foldl_cons]
-    apply ih
-    cases o with
-    | add a =>
-      intro m hm p hp
-      have hn : (addNode pts r a).nodes = if a ∈ r.nodes then r.nodes else a :: r.nodes := rfl
-      show find (addNode pts r a).circle p = some m
-      rw [find_addNode]
-      by_cases hma : m = a
-      · subst hma; simp [hp]
-      · have hpa : p ∉ pts a := hnc.1 m a hma p hp
-        simp only [hpa, if_false]
-        apply hr m _ p hp
-        change m ∈ (addNode pts r a).nodes at hm
-        rw [hn] at hm
-        by_cases ha : a ∈ r.nodes
-        · simpa [ha] using hm
-        · simp only [ha, if_false, List.mem_cons] at hm
-          rcases hm with hm | hm
-          · exact absurd hm hma
-          · exact hm
-    | remove a =>
-      intro m hm p hp
-      have hn : (removeNode g pts r a).nodes = r.nodes.filter (· ≠ a) := rfl
-      change m ∈ (removeNode g pts r a).nodes at hm
-      rw [hn] at hm
-      have hm' := List.mem_filter.mp hm
-      have hma : m ≠ a := by simpa using hm'.2
-      have hpa : p ∉ pts a := hnc.1 m a hma p hp
-      show find (removeNode g pts r a).circle p = some m
-      cases g with
-      | true => rw [find_removeNode]; simp only [hpa, false_and, if_false]; exact hr m hm'.1 p hp
-      | false => rw [find_removeNode_unguarded]; simp only [hpa, if_false]; exact hr m hm'.1 p hp
+theorem mem_insertName (x a : List UInt8) (l : List (List UInt8)) : a ∈ insertName x l ↔ a = x ∨ a ∈ l := by
+  induction l with
+  | nil => simp [insertName]
+  | cons y ys ih =>
+    unfold insertName
+    split
+    · simp only [List.mem_cons, ih]
+      constructor
+      · rintro (h | h | h)
+        · exact Or.inr (Or.inl h)
+        · exact Or.inl h
+        · exact Or.inr (Or.inr h)
+      · rintro (h | h | h)
+        · exact Or.inr (Or.inl h)
+        · exact Or.inl h
+        · exact Or.inr (Or.inr h)
+    · simp
+
+theorem mem_sortNames (a : List UInt8) (l : List (List UInt8)) : a ∈ sortNames l ↔ a ∈ l := by
+  induction l with
+  | nil => simp [sortNames]
+  | cons y ys ih =>
+    unfold sortNames at ih ⊢
+    simp only [List.foldr_cons, mem_insertName, ih, List.mem_cons]
+
+theorem replicaPoints_ne_nil (P : Params) (hp : 0 < P.replicas) (sep m : List UInt8) : replicaPoints P sep m ≠ [] := by
+  unfold replicaPoints
+  intro h
+  have := congrArg List.length h
+  simp at this
+  omega
+
+/-- under `Valid` the driver's configuration exists, has guard and give-back loop, a proper visiting order
+  and at least one replica point per member -/
+theorem concreteCfg_valid (P : Params) (hv : Valid P) :
+    ∃ K, concreteCfg? P = some K ∧ K.guarded = true ∧ K.restores = true ∧ OrdOK K ∧ ∀ a, K.pts a ≠ [] := by
+  obtain ⟨hg, hrs, hrep, _, _, _, hfr, hft, hsome, _, _⟩ := hv
+  obtain ⟨sep, hsep⟩ := Option.isSome_iff_exists.mp hsome
+  refine ⟨{ guarded := P.guarded, restores := P.restores, pts := replicaPoints P sep, ord := sortNames }, ?_, hg, hrs, ?_, ?_⟩
+  · unfold concreteCfg?
+    rw [← hfr, hft, hsep]
+    simp
+  · intro l m; exact mem_sortNames m l
+  · intro a; exact replicaPoints_ne_nil P hrep sep a
 
 end Fatchoy.C17
